@@ -38,8 +38,8 @@ func (a *Asm) Push(v *big.Int) *Asm {
 	a.b = append(a.b, bs...)
 	return a
 }
-func (a *Asm) PushU(v uint64) *Asm      { return a.Push(new(big.Int).SetUint64(v)) }
-func (a *Asm) PushB(bs []byte) *Asm     { return a.Push(new(big.Int).SetBytes(bs)) }
+func (a *Asm) PushU(v uint64) *Asm  { return a.Push(new(big.Int).SetUint64(v)) }
+func (a *Asm) PushB(bs []byte) *Asm { return a.Push(new(big.Int).SetBytes(bs)) }
 func (a *Asm) PushAddr(hexAddr string) *Asm {
 	return a.PushB(common.FromHex(hexAddr))
 }
@@ -369,4 +369,29 @@ func GenEthTx(t *rapid.T, srcIdx int, stateNonce uint64, contracts []string, uni
 	s := k.SK.Sign(wrapped.Hash.Bytes())
 	wrapped.Sign = &s
 	return Tx{Tx: wrapped, Kind: "eth", Desc: desc}
+}
+
+// EthTransfer builds a wrapped EIP-155 value transfer from key K(srcIdx) (no generated choices).
+func EthTransfer(srcIdx int, nonce uint64, to string, value *big.Int, gas uint64) *types.Transaction {
+	k := txgen.K(srcIdx)
+	chainID, _ := new(big.Int).SetString(common.ChainId(1), 10)
+	signer := eth_tx.NewEIP155Signer(chainID)
+	raw := eth_tx.NewTransaction(nonce, common.HexToAddress(to), value, gas, big.NewInt(1000000000), nil)
+	priv := &ecdsa.PrivateKey{PublicKey: k.SK.PrivKey.PublicKey, D: k.SK.PrivKey.D}
+	signed, err := eth_tx.SignTx(raw, signer, priv)
+	if err != nil {
+		panic(err)
+	}
+	enc, err := rlp.EncodeToBytes(signed)
+	if err != nil {
+		panic(err)
+	}
+	sender, err := eth_tx.Sender(signer, signed)
+	if err != nil {
+		panic(err)
+	}
+	wrapped := eth_tx.ConvertTx(signed, sender, enc)
+	s := k.SK.Sign(wrapped.Hash.Bytes())
+	wrapped.Sign = &s
+	return wrapped
 }
